@@ -1,10 +1,25 @@
-\* spec -> code: every edge of core S up to depth 3, with the observation of every state (workers 1)
-CONSTANTS NL = 4  NA0 = 3  NP0 = 1  NF = 2  MB = 3  MaxCascade = 3  MaxLevel = 3  ReAdd = TRUE
-CONSTANTS Layout <- LayoutS  Place <- PlaceS  SFlagSets <- FlagsAll  TrackSet <- Both  Go <- GoBounded
+\* spec -> code (quick): flag settings {} and {G,P} x tracking x built/database-loaded; every edge of core S up to depth 3, with the observation of every state (workers 1)
+CONSTANTS NL = 4  NA0 = 3  NP0 = 1  NF = 2  MB = 3  MaxCascade = 3  MaxLoop = 3  MaxChain = 2  MaxLevel = 3  ReAdd = TRUE
+CONSTANTS Layout <- LayoutS  Place <- PlaceS  SFlagSets <- FlagsG2  TrackSet <- Both  DbSet <- Both  Go <- GoBounded
 ACTION_CONSTRAINT Emit
 INVARIANT EmitState
 INIT Init
 NEXT Next
 CONSTRAINT Bound
 VIEW ViewAll
+INVARIANT TypeOK
+INVARIANT InventoryNoDuplicates
+INVARIANT InventoryExact
+INVARIANT PoolKeepsTrackedDischarges
+INVARIANT OnePerLocation
+INVARIANT ByLocTruthful
+INVARIANT AsmLookupFindsLive
+INVARIANT BlkLookupFindsLive
+INVARIANT LookupsNeverReturnPurged
+INVARIANT NamesAreCurrent
+INVARIANT ContentsUnchanged
+INVARIANT BlocksPartition
+INVARIANT BlockOrderKept
+INVARIANT NoFlagsNoExchange
+INVARIANT LookupsAgree
 CHECK_DEADLOCK FALSE
